@@ -81,6 +81,9 @@ def _more_hand_made(P: Any) -> list[tuple[str, list[Any], list[list[Any]], list[
     # the first op is a jump target only of code that can not be reached; ops that can not be reached follow it
     sets.append(("entry-label-before-unreachable-ops", [inf("GENERIC")], [[
         o(0, "Jump", [2]), o(1, "hm_never", []), o(2, "Jump", [4]), o(3, "Jump", [0]), o(4, "End", [])]], [None]))
+    # a call of an earlier label (recursion) that is followed by a jump
+    sets.append(("call-back-then-jump", [inf("GENERIC")], [[
+        o(0, "hm_a", []), o(1, "Call", [0]), o(2, "Jump", [4]), o(3, "hm_b", []), o(4, "End", [])]], [None]))
     sets.append(("irreducible-loop-through-first-op", [inf("GENERIC")], [[
         o(0, "hm_top", []), o(1, "Branch", [V("$A"), 1, 4]), o(2, "hm_x", []), o(3, "Jump", [5]), o(4, "hm_y", []), o(5, "hm_z", []), o(6, "Branch", [V("$B"), 2, 4]),
         o(7, "Branch", [V("$C"), 3, 0]), o(8, "Jump", [2])]], [None]))
@@ -227,7 +230,7 @@ def ssbs_sourcemap_rule(chk: Check, ctx: Any, rule: str) -> None:
 
 
 def _op_level(P: Any, thorough: bool) -> list[tuple[str, list[Any], list[list[Any]], list[Any]]]:
-    """Every well-formed routine of up to 3 (thorough: 4) ops over {plain op, End, Jump -> t, Branch -> t}: all layouts of all small flow
+    """Every well-formed routine of up to 3 (thorough: 4) ops over {plain op, End, Jump -> t, Branch -> t} (up to 3 ops also Call -> t and Return): all layouts of all small flow
     graphs, whether or not a compiler would produce them.  Well-formed: the last op does not fall off the end, every target is an op of
     the routine, no cycle consists of Jump ops only."""
     import itertools
@@ -235,8 +238,10 @@ def _op_level(P: Any, thorough: bool) -> list[tuple[str, list[Any], list[list[An
     out = []
     for n in range(1, (4 if thorough else 3) + 1):
         choices: list[tuple[str, int | None]] = [("P", None), ("E", None)] + [("J", t) for t in range(n)] + [("B", t) for t in range(n)]
+        if n <= 3:
+            choices += [("K", t) for t in range(n)] + [("R", None)]  # Call -> t and Return, for the routines of up to 3 ops
         for prog in itertools.product(choices, repeat=n):
-            if prog[-1][0] not in "EJ":
+            if prog[-1][0] not in "EJR":
                 continue
             ok = True
             for i, (k, t) in enumerate(prog):
@@ -259,6 +264,10 @@ def _op_level(P: Any, thorough: bool) -> list[tuple[str, list[Any], list[list[An
                     ops.append(o(i, "End", []))
                 elif k == "J":
                     ops.append(o(i, "Jump", [t]))
+                elif k == "K":
+                    ops.append(o(i, "Call", [t]))
+                elif k == "R":
+                    ops.append(o(i, "Return", []))
                 elif k == "B":
                     ops.append(o(i, "Branch", [pa("SsbOpParamConstant", f"$V{i}"), 1, t]))
                 else:
